@@ -45,6 +45,10 @@ class SQLStorage(Storage):
                 self.session.rollback()
                 log.error('Error trying to create already existing policy with UID=%s.', policy.uid)
                 raise PolicyExistsError(policy.uid)
+        except Exception:
+            # leave no failed transaction behind: it would make every later operation raise
+            self.session.rollback()
+            raise
         log.info('Added Policy: %s', policy)
 
     def get(self, uid):
@@ -71,7 +75,7 @@ class SQLStorage(Storage):
                 return
             policy_model.update(policy)
             self.session.commit()
-        except IntegrityError:
+        except Exception:
             self.session.rollback()
             raise
         log.info('Updated Policy with UID=%s. New value is: %s', policy.uid, policy)
